@@ -48,6 +48,11 @@ func (c *context) ParseGo() bool {
 		return false
 	}
 
+	if len(pkgs) == 0 {
+		c.Errs.GeneralErrorf("%v: no Go package found", c.Dir)
+		return false
+	}
+
 	c.GoPackagePath = pkgs[0].PkgPath
 
 	if len(pkgs[0].Errors) != 0 {
